@@ -281,6 +281,23 @@ pub async fn run_net_history(h: &NetHistory) -> Vec<(String, String)> {
                 }
                 model.apply(ev)
             }
+            Ev::ConnectFail if h.tls && held.is_some() && i % 2 == 1 => {
+                // TLS: the TCP connection is accepted and closed before any handshake byte: the
+                // attempt fails *after* the socket connected (every other failure is a refusal)
+                env.set_mode(PortMode::Accept).await;
+                release(&mut held);
+                if let Some(l) = env.listener.as_ref() {
+                    match tokio::time::timeout(STEP_TIMEOUT, l.accept()).await {
+                        Ok(Ok((tcp, _))) => drop(tcp),
+                        _ => {
+                            problems.push(("connect-path".into(), format!("{step}: the client never connected")));
+                            break;
+                        }
+                    }
+                }
+                env.set_mode(PortMode::Refuse).await;
+                model.apply(ev)
+            }
             Ev::ConnectFail => {
                 // (a pending attempt fails when its listener goes away: RST / closed socket)
                 env.set_mode(PortMode::Refuse).await;
